@@ -110,31 +110,6 @@ def check_bf3(case, rec):
     _check_fields(parsed, mcomps, "write_file")
 
 
-class _RecKey:
-    """Recording wrapper around the registered private-key class (public registry API)."""
-
-    def __init__(self):
-        self.scalars = []
-        base = sut.CR.__dict__["__PrivateEccKey"]
-        outer = self
-
-        class Rec(base):
-            @classmethod
-            def generate(cls):
-                k = base.generate()
-                outer.scalars.append(k.private_key.privkey.secret_multiplier)
-                return k
-
-        self.cls = Rec
-
-    def __enter__(self):
-        sut.bec2format.register_PrivateEccKey(self.cls)
-        return self
-
-    def __exit__(self, *a):
-        sut.registry_restore()
-
-
 def check_bec2(case, rec):
     key = case["key"]
     blocks = case["blocks"]
@@ -149,7 +124,9 @@ def check_bec2(case, rec):
     bec = sut.mk_bec2(case)
     writers = sut.writers_for(case)
     mcomps = _model_comps(case, key)
-    with _RecKey() as rk:
+    from vlib.core import case_hash
+
+    with sut.DetKeys(case_hash(case)) as rk:
         try:
             got = bec.to_binary(writers)
         except Exception as e:
@@ -190,7 +167,7 @@ def check_bec2(case, rec):
         raise Violation("strict parser rejects BEC2 body: %s" % e)
     _check_fields(parsed, mcomps, "Bec2File.to_binary")
     # text route (blocks are re-randomised for ECC, so only the shape and the deterministic part are compared)
-    with _RecKey():
+    with sut.DetKeys(case_hash(case) + b'2'):
         try:
             text, _ = sut.write_text(lambda t: bec.write_file(t, writers), case["route"])
         except Exception as e:
